@@ -15,7 +15,7 @@ for f in sorted(glob.glob(os.path.join(root, "manifest.d", "C*.json"))):
     c.setdefault("evidence_file", f"/verif/evidence/{pid}.json")
     c.setdefault("replay_cmd_template", "/venv/bin/python -m harness.replay {path}")
     c.setdefault("engine", "coq-model")
-    checks.append(c)
+    checks.append({k: v for k, v in c.items() if not k.startswith("_")})
 na_path = os.path.join(root, "manifest.d", "_not_applicable.json")
 na = json.load(open(na_path)) if os.path.exists(na_path) else []
 claimed = {c["property_id"] for c in checks}
